@@ -29,36 +29,50 @@ def InTrail (U : List Nat) (ocs : Classes) (b k : Nat) : Prop :=
   b < k ∧ ∀ i ∈ U, b < i → i ≤ k → keepU ocs i = false ∨ cget ocs i = NSM
 
 /-- *backward witness*: the last kept unit before the removed unit `p` carries the same type as
-    `p`, and no pending bracket can still change it -/
+    `p`, and no pending bracket can still change it.  (Since the crate's forward sweep no longer
+    writes removed units, `n0Pair` never produces this situation; the N1/N2 projection lemma of
+    `C01NeutralBNN12` still allows it.) -/
 def BwdWit (U : List Nat) (ocs pcs : Classes) (F : Nat → Prop) (p : Nat) : Prop :=
   ∃ q ∈ U, q < p ∧ keepU ocs q = true ∧ cget pcs q = cget pcs p ∧
     (∀ i ∈ U, q < i → i < p → keepU ocs i = false) ∧
     ∀ b, F b → b ≠ q ∧ ¬ InTrail U ocs b q
 
+/-- *forward witness, settled*: the next kept unit after the removed unit `p` carries the same type
+    as `p`, and it is not an end of a bracket pair that is still to be processed -/
+def FwdWitF (U : List Nat) (ocs pcs : Classes) (F : Nat → Prop) (p : Nat) : Prop :=
+  ∃ q ∈ U, p < q ∧ keepU ocs q = true ∧ cget pcs q = cget pcs p ∧
+    (∀ i ∈ U, p < i → i < q → keepU ocs i = false) ∧ ¬ F q
+
+theorem FwdWitF.fwd {U : List Nat} {ocs pcs : Classes} {F : Nat → Prop} {p : Nat}
+    (h : FwdWitF U ocs pcs F p) : FwdWit U ocs pcs p := by
+  obtain ⟨q, hq, h1, h2, h3, h4, _⟩ := h
+  exact ⟨q, hq, h1, h2, h3, h4⟩
+
 /-- the state of the per-unit array during N0, relative to the pending bracket ends `F` -/
 structure InvBN (U : List Nat) (ocs pcs : Classes) (F : Nat → Prop) : Prop where
   /-- a kept unit never carries BN -/
   kept : ∀ i ∈ U, keepU ocs i = true → cget pcs i ≠ BN
-  /-- a pending bracket end is a kept unit of the sequence, not an original NSM, still typed ON -/
-  fresh : ∀ b, F b → b ∈ U ∧ keepU ocs b = true ∧ cget ocs b ≠ NSM ∧ cget pcs b = ON
-  /-- a removed unit carries BN, ON, or the type of a neighbouring kept unit -/
+  /-- a pending bracket end is a kept unit of the sequence -/
+  fresh : ∀ b, F b → b ∈ U ∧ keepU ocs b = true
+  /-- a removed unit carries BN, ON, or the type of the next kept unit, which is not a pending
+      bracket end -/
   wit : ∀ p ∈ U, keepU ocs p = false →
-    cget pcs p = BN ∨ cget pcs p = ON ∨ FwdWit U ocs pcs p ∨ BwdWit U ocs pcs F p
+    cget pcs p = BN ∨ cget pcs p = ON ∨ FwdWitF U ocs pcs F p
   /-- in the trail of a pending bracket end, the removed units in front of a kept original NSM
-      still carry BN (so the crate's sweep reaches that NSM, as the Spec's does) -/
+      carry BN or ON (so the type of that NSM, which the bracket's sweep may overwrite, is nobody's
+      forward witness) -/
   trail : ∀ b, F b → ∀ k ∈ U, keepU ocs k = true → InTrail U ocs b k →
-    ∀ p ∈ U, b < p → p < k → keepU ocs p = false → cget pcs p = BN
+    ∀ p ∈ U, b < p → p < k → keepU ocs p = false → cget pcs p = BN ∨ cget pcs p = ON
 
 theorem InvBN.mono {U : List Nat} {ocs pcs : Classes} {F F' : Nat → Prop}
     (h : InvBN U ocs pcs F) (hF : ∀ b, F' b → F b) : InvBN U ocs pcs F' where
   kept := h.kept
   fresh := fun b hb => h.fresh b (hF b hb)
   wit := fun p hp hr => by
-    rcases h.wit p hp hr with h1 | h1 | h1 | ⟨q, hq, h2, h3, h4, h5, h6⟩
+    rcases h.wit p hp hr with h1 | h1 | ⟨q, hq, h2, h3, h4, h5, h6⟩
     · exact Or.inl h1
     · exact Or.inr (Or.inl h1)
-    · exact Or.inr (Or.inr (Or.inl h1))
-    · exact Or.inr (Or.inr (Or.inr ⟨q, hq, h2, h3, h4, h5, fun b hb => h6 b (hF b hb)⟩))
+    · exact Or.inr (Or.inr ⟨q, hq, h2, h3, h4, h5, fun hb => h6 (hF q hb)⟩)
   trail := fun b hb => h.trail b (hF b hb)
 
 /-- the ends of a list of bracket pairs -/
